@@ -44,9 +44,32 @@ contract("xdoctest.runner:_run_examples",
 
 
 # ------------------------------------------------------------------------ C10.gather: region of doctest_module
+contract("xdoctest.runner:undefined_names", params={"sourcecode": "str"}, returns="list[str]", trusted=True, log=False,
+         raises={"Exception*?": None}, note="T: pyflakes; may be missing")
+
+_HWP = "(part.want_lines is not None and len(part.want_lines) > 0 and len('\\n'.join(part.want_lines)) > 0)"
 contract("xdoctest.runner:_convert_to_test_module",
-         params={"enabled_examples": "Val"}, returns="str", trusted=True,
-         note="its own contract is C19")
+         params={"enabled_examples": "reclist[DocTest]"}, returns="str",
+         ensures=[],
+         loops={0: LoopSpec(header="enabled_examples", types={"module_lines": "list[str]"}, modifies=[],
+                            invariants=[("one-function-per-example", "len(module_lines) == _i0")]),
+                1: LoopSpec(header="example._parts", types={"body_lines": "list[str]"}, modifies=[],
+                            invariants=[("one-block-per-part", "len(body_lines) == _i1")],
+                            body_post=[
+                                ("only-star-imports-removed", "part.exec_lines == S.no_star_imports(before(part.exec_lines))"),
+                                ("formatted-bare", "ev_count('DoctestPart.format_part') == 1 and ev_arg('DoctestPart.format_part', 0, 'self') is part and "
+                                                   "not ev_arg('DoctestPart.format_part', 0, 'prefix') and not ev_arg('DoctestPart.format_part', 0, 'want')"),
+                                ("source-then-want-as-comment",
+                                 "body_lines[len(body_lines) - 1] == (ev_arg('DoctestPart.format_part', 0, 'result') + "
+                                 "'\\n# doctest want:\\n' + '# ' + '\\n'.join(part.want_lines).replace('\\n', '\\n# ') "
+                                 "if " + _HWP + " else ev_arg('DoctestPart.format_part', 0, 'result'))")]),
+                2: LoopSpec(header="part.exec_lines", types={"new_exec_lines": "list[str]"}, modifies=[],
+                            invariants=[("kept-so-far", "new_exec_lines == S.no_star_imports(part.exec_lines[:_i2])")])},
+         props=["C19"],
+         opts={"native": False,
+               "exit_facts": [("one-function-per-example", "len(module_lines) == len(enabled_examples)")]},
+         note="one def block per enabled example; per part: the source lines minus star imports, then the want as comments",
+         sentinel=("drops-everything", "result == ''"))
 contract("xdoctest.runner:_print_summary_report",
          params={"run_summary": "Val", "parse_warnlist": "Val", "n_seconds": "Val", "enabled_examples": "Val",
                  "durations": "Val", "config": "Val", "_log": "Val"},
